@@ -1,5 +1,6 @@
 """C16 — Categorical distribution (DESIGN.md section 4/C16, Appendix A.C16)."""
 from ..speclib import *
+import re
 
 TITLE = 'Categorical: normalised probabilities, exact logp, inverse-CDF scan never selects a zero-probability category'
 EXPLANATION = ('Value-flow normal forms of Categorical::new (probs_i = w_i / sum_j w_j), Discrete::logp (index guard, ln p_i, -inf), '
@@ -67,14 +68,18 @@ def run(ctx):
     sp = b['sp']
     draws = ev.events(lambda e: e.op == 'draw')
     r = None
-    if len(draws) == 1 and draws[0].draw_kind == 'rng_random' and root_place(draws[0].args[0]) == 'self.rng' and not draws[0].loops:
+    m_el = re.match(r'.*<\s*([A-Za-z0-9_:]+)\s*>\s*$', b.get('self_ty') or '')
+    elty = m_el.group(1) if m_el else None          # the distribution's element type as the impl names it
+    drawn_ty = (getattr(draws[0], 'gargs', None) or [None, None])[1] if draws else None
+    if len(draws) == 1 and draws[0].draw_kind == 'rng_random' and root_place(draws[0].args[0]) == 'self.rng' and not draws[0].loops and elty is not None and drawn_ty == elty:
         r = draws[0].res
         ctx.ok('C16.sample.variate', A, 'variate', expected='one Rng::random::<T>() on self.rng before the scan', found=show(r), sp=draws[0].sp,
                why='the variate is a single StandardUniform draw in [0,1) from the distribution\'s own generator')
     else:
         ctx.bad('C16.sample.variate', A, 'variate', expected='one Rng::random::<T>() on self.rng before the scan',
-                found='; '.join('%s on %s loops=%s' % (d.draw_kind, root_place(d.args[0]), d.loops) for d in draws) or 'no draw',
-                why='the variate is a single StandardUniform draw in [0,1)', sp=sp)
+                found='; '.join('%s::<%s> on %s loops=%s' % (d.draw_kind, (getattr(d, 'gargs', None) or [None, None])[1], root_place(d.args[0]), d.loops) for d in draws) or 'no draw',
+                why='the variate is a single StandardUniform draw in [0,1) IN THE ELEMENT TYPE of the probabilities: a draw in a wider type converted afterwards can round up to exactly 1.0, '
+                    'which no cumulative sum exceeds, so the fallback index is returned whatever its probability', sp=sp)
     loops = [ls for ls in ev.vf.loops if ls.kind == 'for']
     if len(loops) != 1 or r is None:
         for o in OBS[4:]:
